@@ -29,6 +29,8 @@ type LoopSpec struct {
 	Variant  *Clause
 	ModAll   bool
 	Used     bool
+	Lets     []LetDef
+	Mods     []Clause // extra locations havocked at the loop head (interference by other threads)
 }
 
 type FuncContract struct {
@@ -544,6 +546,29 @@ func (cs *ContractSet) ParseContractFile(path, pkg string, trusted bool) error {
 						return err
 					}
 					ls.Invs = append(ls.Invs, c)
+				case "modifies":
+					for _, p := range splitTop(body, ',') {
+						p = strings.TrimSpace(p)
+						if p == "*" || strings.HasSuffix(p, ".*") || strings.Contains(p, "::") {
+							ls.Mods = append(ls.Mods, Clause{Text: p, File: path, Line: ln.n})
+							continue
+						}
+						c, err := parseClause(p, path, ln.n, nil)
+						if err != nil {
+							return err
+						}
+						ls.Mods = append(ls.Mods, c)
+					}
+				case "let":
+					i := strings.Index(body, "=")
+					if i < 0 {
+						return fail(fmt.Errorf("loop KEY let NAME = EXPR"))
+					}
+					e, err := parseSpecExpr(body[i+1:])
+					if err != nil {
+						return fail(err)
+					}
+					ls.Lets = append(ls.Lets, LetDef{Name: strings.TrimSpace(body[:i]), Expr: e, Text: body})
 				case "variant", "decreases":
 					c, err := parseClause(body, path, ln.n, nil)
 					if err != nil {
